@@ -559,11 +559,37 @@ static int c13_minimise(Plan &plan, Schedule &sched, bool tier2, const std::stri
             if (fails_same(p, s, tier2, cls)) { plan = p; sched = s; progress = true; }
         }
     }
-    for (int i = (int)sched.sw.size() - 1; i >= 0; i--) {
-        Schedule s = sched;
-        s.sw.erase(s.sw.begin() + i);
-        if (++tries > budget) return tries;
-        if (fails_same(plan, s, tier2, cls)) sched = s;
+    for (size_t chunk = sched.sw.size() / 2; chunk >= 1 && tries < budget; chunk /= 2) {
+        for (size_t i = 0; i + chunk <= sched.sw.size() && tries < budget;) {
+            Schedule s = sched;
+            s.sw.erase(s.sw.begin() + i, s.sw.begin() + i + chunk);
+            tries++;
+            if (fails_same(plan, s, tier2, cls)) sched = s;
+            else i += chunk;
+        }
+        if (chunk == 1) break;
+    }
+    // with fewer switches more ops may have become removable
+    bool again = true;
+    while (again && tries < budget) {
+        again = false;
+        for (int t = 0; t < (int)plan.tasks.size(); t++)
+            for (int o = (int)plan.tasks[t].ops.size() - 1; o >= 0; o--) {
+                if (plan.tasks[t].ops[o].fn == OP_SPAWN) continue;
+                Plan p = plan;
+                Schedule s = sched;
+                drop_op(p, s, t, o);
+                if (++tries > budget) return tries;
+                if (fails_same(p, s, tier2, cls)) { plan = p; sched = s; again = true; }
+            }
+        for (int t = (int)plan.tasks.size() - 1; t >= 1; t--) {
+            if (has_children(plan, t)) continue;
+            Plan p = plan;
+            Schedule s = sched;
+            c13_drop_task(p, s, t);
+            if (++tries > budget) return tries;
+            if (fails_same(p, s, tier2, cls)) { plan = p; sched = s; again = true; }
+        }
     }
     return tries;
 }
